@@ -112,6 +112,32 @@ def pairs(ctx, n, btypes=("app", "app", "card", "cum", "ord")):
         yield case, cfg
 
 
+def neartie_pairs(ctx, n):
+    """prices per unit of utility that are close (1e-7 .. 1e-32 apart) but not equal: which project is cheapest, and whether two
+    are tied, are exact questions"""
+    rng = ctx.rng
+    for _ in range(n):
+        case = core.gen_neartie_election(rng) if rng.random() < 0.7 else core.gen_huge_election(rng)
+        cfg = rulegen.gen_rule_cfg(rng, case, rules=("mes",), allow_refuse=False)
+        ctx.count("stream", "near-tied prices")
+        yield case, cfg
+
+
+def negscore_pairs(ctx, n):
+    """cardinal / cumulative ballots with negative and zero scores: a supporter of a project is a voter with POSITIVE utility for
+    it, whatever the others think of it (a project may be supported although its total score is negative)"""
+    from . import C04
+
+    rng = ctx.rng
+    for _ in range(n):
+        case = C04.gen_negscore_election(rng, 5)
+        cfg = rulegen.gen_rule_cfg(rng, case, rules=("mes",), allow_refuse=False)
+        if not cfg["res"] and len(case.projects) > 5:
+            cfg["res"] = True
+        ctx.count("stream", "negative-and-zero-scores")
+        yield case, cfg
+
+
 def degenerate_pairs(ctx, n):
     """degenerate budgets (0, the cost of one project, the total, ...) x zero-cost projects with supporters"""
     rng = ctx.rng
@@ -145,6 +171,8 @@ def run(ctx):
     # round 4 (drawn after the streams above, whose seeds are unchanged)
     items += ruleprops.run_items(ctx, degenerate_pairs(ctx, ctx.scale(800, 6000)), predicate, nontrivial)
     items += ruleprops.run_items(ctx, satprofile_pairs(ctx, ctx.scale(600, 5000)), predicate, nontrivial, compare=False)
+    items += ruleprops.run_items(ctx, neartie_pairs(ctx, ctx.scale(500, 5000)), predicate, nontrivial)  # round 6 (drawn last)
+    items += ruleprops.run_items(ctx, negscore_pairs(ctx, ctx.scale(500, 5000)), predicate, nontrivial)
     ctx.extra["capped_runs"] = sum(1 for it in items if getattr(it, "capped", False))
     ctx.extra["binary_sat"] = {str(k): sum(1 for it in items if it.cfg.get("binary") == k) for k in (None, True, False)}
 
